@@ -8,7 +8,7 @@ from .semcheck import Case, dbs_ab, FACT_DBS_AB
 x, y, z = V('x'), V('y'), V('z')
 TERMS = [x, y, z, N(1)]
 # families that exist to pin one recorded finding to the property it is recorded under; the metamorphic checks (C07, C11) do not re-use them
-FINDING_FAMILIES = ('RECORD-FIELD-ORDER', 'FUNCTOR-GROUND-EXPLICIT', 'PRECEDENCE')     # (PRECEDENCE programs are raw text with a separate reference rule: not rewritable)
+FINDING_FAMILIES = ('RECORD-FIELD-ORDER', 'FUNCTOR-GROUND-EXPLICIT', 'INJ-RECORD-PATTERN', 'PRECEDENCE')     # (PRECEDENCE programs are raw text with a separate reference rule: not rewritable)
 
 
 def static_ok(rules, pred, schema='AB'):
@@ -431,6 +431,19 @@ def gen_recpattern():
     yield Case('EQFORMS', Program([R('T', p_, q_, body=b[:1] + b[1:][::-1])]), ['T'])
 
 
+def gen_inj_record_pattern():
+  """an injectible predicate that destructures a record by a pattern, used twice in one rule (finding F47) and once (fine)"""
+  r_ = V('r')
+  Rr = [R('Rr', ('rec', (('a', x), ('b', y))), body=(Lit('A', x, y),)), Ann('@NoInject(Rr);')]
+  Q = R('Q', y, body=(Lit('Rr', r_), Eq(('rec', (('a', x), ('b', z))), r_), Eq(y, Bin('+', x, z))))
+  yield Case('INJ-RECORD-PATTERN', Program(Rr + [Q, R('T', V('u'), V('v'), body=(Lit('Q', V('u')), Lit('Q', V('v'))))]), ['T'])
+  yield Case('INJ-RECORD-PATTERN', Program(Rr + [Q, R('T', V('u'), body=(Lit('Q', V('u')), Lit('B', V('u'))))]), ['T'])
+  yield Case('INJ', Program(Rr + [Q]), ['Q'])
+  yield Case('INJ', Program(Rr + [Q, Ann('@NoInject(Q);'), R('T', V('u'), V('v'), body=(Lit('Q', V('u')), Lit('Q', V('v'))))]), ['T'])
+  Q2 = R('Q', y, body=(Lit('Rr', r_), Eq(x, ('fld', r_, 'a')), Eq(y, Bin('+', x, N(1)))))
+  yield Case('INJ', Program(Rr + [Q2, R('T', V('u'), V('v'), body=(Lit('Q', V('u')), Lit('Q', V('v'))))]), ['T'])
+
+
 def gen_reccol():
   Rp = [R('Rp', x, ('rec', (('a', x), ('b', y))), body=(Lit('A', x, y),)), Ann('@NoInject(Rp);')]
   yield Case('EXPR', Program(Rp + [R('T', V('p'), V('q'), body=(Lit('Rp', x, V('r')), Eq(V('p'), ('fld', V('r'), 'a')), Eq(V('q'), ('fld', V('r'), 'b'))))]), ['T', 'Rp'])
@@ -518,7 +531,7 @@ def val_dbs():
 def c01_cases(thorough):
   dbs = dbs_ab(2) + val_dbs()
   dbs3 = dbs_ab(3) if thorough else None      # thorough: all multisets of <=3 rows per table (35 x 10 = 350 databases) for the smaller families
-  gens = [gen_cq(3 if thorough else 2), gen_cons(2 if thorough else 1), gen_disj(thorough), gen_expr(thorough), gen_reccol(), gen_func(thorough), gen_inj(thorough), gen_eqforms(), gen_recpattern(), gen_precedence()]
+  gens = [gen_cq(3 if thorough else 2), gen_cons(2 if thorough else 1), gen_disj(thorough), gen_expr(thorough), gen_reccol(), gen_func(thorough), gen_inj(thorough), gen_eqforms(), gen_recpattern(), gen_precedence(), gen_inj_record_pattern()]
   seen = set()
   for g in gens:
     for c in g:
